@@ -117,7 +117,29 @@ func (r *histRunner) doGCPark(op *Op) error {
 				var e error
 				switch cop.Kind {
 				case "set":
+					first := r.inGrp[cop.K] && r.model[cop.K].State == stAbsent
 					e = r.doSet(cop)
+					if e == nil && first && r.opts.collisions && verifkit.Known("C05-guess-after-sibling-first-write") {
+						// known finding: once a sibling of an undetected collision group is written for the first time during a pass,
+						// GC judges the group's remaining records in the source file "newest" by guess and re-enters them one after
+						// the other; a key with several records there (say a tombstone and a later value) may afterwards resolve to
+						// the older one until it is rewritten
+						for _, g := range r.h.Cfg.Groups {
+							in := false
+							for _, k := range g {
+								if k == cop.K {
+									in = true
+								}
+							}
+							if in {
+								for _, k := range g {
+									if k != cop.K && r.model[k].State != stAbsent && r.staleOK[k] == "" {
+										r.staleOK[k] = "C05-guess-after-sibling-first-write"
+									}
+								}
+							}
+						}
+					}
 				case "delete":
 					e = r.doDelete(cop)
 				case "get":
